@@ -51,6 +51,12 @@ CHECKS = {
                      'threshold characterised without sqrt), confusion counts + rates from raw labels for binary/multiclass/indicator/multioutput x micro/macro/binary/samples, '
                      'function API == accumulator API, top-k matrices for contiguous and gapped k-lists, 17 retrieval metrics per row, moments with NaN, min/max, histograms, '
                      'calibration histogram, Tjur R2, Pearson r, SPD, flip masks, top-k accuracy, cross entropies. Bounded in rows/classes; rounding outside.'),
+    'C02': dict(engine='symx', level='other', design_ref='DESIGN.md#c02', note=SX_NOTE, technique=SX_TECH,
+                text='The real aggregate/slicing pipeline (TransformRunner.update_state/get_result, Slicer row->mask construction, TreeFn input selection and masking, '
+                     'tree.apply_mask filter/replace) runs on symbolic batches; per path z3 proves every reported value equals a brute-force group-by over the same rows, the '
+                     'reported key set is exactly the set of keys with a member row, and the unsliced result is identical with and without slicers - for single-feature, cross, '
+                     'multiple, restricted-value, fan-out, replace-style (numpy columns) and intra-example mask slicers, stacked aggregates (incl. disable_slicing) and every '
+                     'composition of the rows into batches. Bounded (3 rows quick / 4 thorough, small feature domains).'),
 }
 NA = {}
 PENDING = 'check not built yet (see DESIGN.md build order)'
